@@ -8,6 +8,15 @@
 #ifndef NV_MIN
 #error "NV_MIN must be defined (0..5)"
 #endif
+#if NV_MIN % 2 == 1
+// The layout of an application's own "log.hpp": other nitro log headers come first, the minimum severity is defined
+// right before <nitro/log/log.hpp> - which is the header that reads it.  (The even builds define it before any header.)
+#include <nitro/log/severity.hpp>
+#include <nitro/log/attribute/severity.hpp>
+#include <nitro/log/filter/severity_filter.hpp>
+#include <nitro/log/sink/sequence.hpp>
+#include <nitro/log/record.hpp>
+#endif
 #if NV_MIN == 0
 #define NITRO_LOG_MIN_SEVERITY trace
 #elif NV_MIN == 1
@@ -127,6 +136,15 @@ template <typename R>
 using F8 = MuteT<R>;
 template <typename R>
 using F9 = nl::filter::and_filter<T0<R>, Mutet<R>>;
+
+// two-operand windows: "at least T0 and not yet T1" in both operand orders (the thresholds are independent, so the
+// window may be empty or inverted), and "below T0 or at least T1"
+template <typename R>
+using F10 = nl::filter::and_filter<T0<R>, nl::filter::not_filter<T1<R>>>;
+template <typename R>
+using F11 = nl::filter::and_filter<nl::filter::not_filter<T1<R>>, T0<R>>;
+template <typename R>
+using F12 = nl::filter::or_filter<nl::filter::not_filter<T0<R>>, T1<R>>;
 
 using Sink1 = RecSink<0>;
 using Sink3 = nl::sink::sequence<RecSinkV<0>, RecSink<1>, RecSinkV<2>>;
@@ -588,6 +606,15 @@ static std::string handle(const std::vector<std::string>& f)
         break;
     case 9:
         run_filter<F9>(members, ops);
+        break;
+    case 10:
+        run_filter<F10>(members, ops);
+        break;
+    case 11:
+        run_filter<F11>(members, ops);
+        break;
+    case 12:
+        run_filter<F12>(members, ops);
         break;
     default:
         run_filter<F7>(members, ops);
